@@ -944,6 +944,12 @@ def run_importance(ctx, tie, cfg):
             model = make_model()
             fc = dict(n_blocks=2, n_neurons=8, n_layers=1, ftype=cfg["ftype"])
             fc.update(cfg.get("opts", {}))
+            if cfg.get("dist_instance"):
+                # the latent distribution handed over as an INSTANCE with trainable tensors: every level's flow must own its copy
+                # (seeded changes C03-fB / C08-hB: configure_model's shallow copy shared one between the levels)
+                from nessai.flows.distributions import ResampledGaussian
+                from nessai.flows.nets import MLP
+                fc["distribution"] = ResampledGaussian([2], MLP([2], [1], [8, 8], activate_output=torch.sigmoid))
             p = ImportanceFlowProposal(model, out, flow_config=fc, training_config=dict(max_epochs=cfg.get("epochs", 6), patience=50, batch_size=100),
                                        reparameterisation=cfg["reparam"], clip=cfg["clip"], reset_flow=cfg.get("reset_flow", 2))
             p.initialise()
@@ -956,6 +962,17 @@ def run_importance(ctx, tie, cfg):
                 w = np.random.dirichlet(np.ones(level + 2))
                 p.update_proposal_weights({k - 1: float(v) for k, v in enumerate(w / w.sum())})
                 flows = list(p.flow.models)
+                # every level's flow owns its tensors: a tensor shared between two saved proposals means that training one moves
+                # the density of the other (seeded changes C03-fB / C08-hB)
+                owner = {}
+                for fi, f in enumerate(flows):
+                    for nm, t in list(f.named_parameters()) + list(f.named_buffers()):
+                        if t.numel() == 0:
+                            continue
+                        prev = owner.setdefault(t.data_ptr(), (fi, nm))
+                        if prev[0] != fi:
+                            O.fail("ImportanceFlowModel:flows-share-a-tensor", f"flow {prev[0]} ({prev[1]}) and flow {fi} ({nm}) "
+                                   "hold the same tensor storage: the saved proposals are not independent")
 
                 def prims(xs):
                     """primitives at the physical points xs: x'' = rescale(xs), log_j, per flow (base, logdet)"""
@@ -995,6 +1012,12 @@ def run_importance(ctx, tie, cfg):
                         continue
                     O.close("ImportanceFlowProposal.update_log_q:carried-columns", "update_log_q changed the existing columns",
                             lq_u[:, :level + 1], lq_old[:, :level + 1], 0.0, None)
+                    # the columns stored at EARLIER levels are still the densities of those (saved) proposals: training a later
+                    # level must not move them
+                    O.close(KEY_CLIP if clip_defect else "ImportanceFlowProposal:stored-columns-vs-earlier-proposals",
+                            "log_q columns stored at earlier levels differ from those proposals re-evaluated now (a later training "
+                            "changed an earlier proposal)", lq_old[:, 1:level + 1], lq_f[:, 1:level + 1],
+                            tol_of(K, lq_f, eps, mag)[:, 1:level + 1], None)
                     O.close("ImportanceFlowProposal.update_log_q:new-column-vs-compute_meta_proposal_samples",
                             "column appended by update_log_q != log_q computed forwards for the same physical points",
                             lq_u[:, level + 1], lq_f[:, level + 1], tol_of(K, lq_f, eps, mag)[:, level + 1], None)
@@ -1179,6 +1202,8 @@ def importance_cases(ctx):
                 cases.append(dict(dtype=dname, ftype=ctx.rng.choice(["realnvp", "nsf"]) if r else "realnvp", reparam=rep, clip=clip,
                                   reset_flow=ctx.rng.choice([1, 2, 0]), levels=ctx.scale(2, 3), seed=ctx.rng.getrandbits(30),
                                   n=ctx.scale(120, 300), ntie=ctx.scale(15, 40), epochs=ctx.scale(6, 20), opts={}))
+    cases.append(dict(dtype="float32", ftype="realnvp", reparam="logit", clip=False, reset_flow=1, levels=3, seed=ctx.rng.getrandbits(30),
+                      n=ctx.scale(120, 300), ntie=ctx.scale(15, 40), epochs=ctx.scale(10, 20), opts={}, dist_instance=True))
     return cases
 
 
